@@ -62,7 +62,7 @@ def reviveArr (f : Reviver) : Nat → Nat → RVs → RVs × List Str
     let rest := reviveArr f fuel (i + 1) t
     (.cons (match r.1 with | some x => x | none => .undef) rest.1, r.2 ++ rest.2)
 def reviveObj (f : Reviver) : Nat → RMs' → RMs' × List Str
-  | 0, _ => (.nil, [])
+  | 0, m => (m, [])
   | _ + 1, .nil => (.nil, [])
   | fuel + 1, .cons k v t =>
     let r := revive f fuel k v
